@@ -106,7 +106,7 @@ type lruStep struct {
 
 func lruProperty(regimes []string) func(t *rapid.T) {
 	rec := stat.For("C12")
-	rec.Rule("rapid state machine over cache.NewLRUCache(cap, ttl): cap in {-3,0,1,2,3,5,100}, lifetime regime in {unlimited, long(1h), elapsed(1ns + sleep before each step), boundary(30ms with 45ms/5ms sleep actions)}, actions put/get/delete/clear/sweep/putMany + invariant (size, stats, keys) after every step, compared with a reference LRU model. Non-trivial = at least one capacity eviction after a get-hit/update moved a non-newest key to the front, or at least one observed expiry.")
+	rec.Rule("rapid state machine over cache.NewLRUCache(cap, ttl): cap in {-3,0,1,2,3,5,100}, lifetime regime in {unlimited, long(1h), elapsed(1ns + sleep before each step), boundary(20ms with 4-26ms sleep actions as frequent as reads and writes)}, actions put/get/delete/clear/sweep/putMany + invariant (size, stats, keys) after every step, compared with a reference LRU model. Non-trivial = at least one capacity eviction after a get-hit/update moved a non-newest key to the front, or at least one observed expiry.")
 	return func(t *rapid.T) {
 		capIn := rapid.SampledFrom([]int{2, 1, 3, 2, 3, 4, 1, 5, -3, 0, 100}).Draw(t, "cap")
 		regime := rapid.SampledFrom(regimes).Draw(t, "regime")
@@ -119,7 +119,10 @@ func lruProperty(regimes []string) func(t *rapid.T) {
 		case "elapsed":
 			ttl = time.Nanosecond
 		case "boundary":
-			ttl = 30 * time.Millisecond
+			ttl = 20 * time.Millisecond
+		}
+		if regime == "boundary" && (capIn <= 0 || capIn > 5) {
+			capIn = 3
 		}
 		c := cache.NewLRUCache(capIn, ttl)
 		capEff := c.Capacity()
@@ -132,6 +135,9 @@ func lruProperty(regimes []string) func(t *rapid.T) {
 		m := &lruModel{cap: capEff, ttl: ttl}
 		wide := capEff > 5 // large capacity: use a wide key pool so the bound is reachable
 		keyGen := rapid.SampledFrom([]string{"a", "b", "c", "d", "e", "f"})
+		if regime == "boundary" {
+			keyGen = rapid.SampledFrom([]string{"a", "b", "c"}) // few keys: reads must revisit stored entries as time passes
+		}
 		if wide {
 			keyGen = rapid.Custom(func(t *rapid.T) string { return fmt.Sprintf("k%d", rapid.IntRange(0, capEff+30).Draw(t, "ki")) })
 		}
@@ -220,7 +226,7 @@ func lruProperty(regimes []string) func(t *rapid.T) {
 				steps = append(steps, lruStep{"clear", "", ""})
 			},
 			"sleep": func(t *rapid.T) {
-				d := rapid.SampledFrom([]time.Duration{45 * time.Millisecond, 5 * time.Millisecond}).Draw(t, "d")
+				d := rapid.SampledFrom([]time.Duration{8 * time.Millisecond, 4 * time.Millisecond, 13 * time.Millisecond, 26 * time.Millisecond}).Draw(t, "d")
 				time.Sleep(d)
 				steps = append(steps, lruStep{"sleep", d.String(), ""})
 			},
@@ -295,14 +301,16 @@ func lruProperty(regimes []string) func(t *rapid.T) {
 		if wide {
 			rare = append(rare, "putMany", "putMany", "putMany")
 		}
-		weighted := map[string]func(*rapid.T){
-			"": acts[""],
-			"put": acts["put"], "put2": acts["put"], "put3": acts["put"],
-			"get": acts["get"], "get2": acts["get"], "get3": acts["get"],
-			"delete": acts["delete"],
-			"rare": func(t *rapid.T) { acts[rapid.SampledFrom(rare).Draw(t, "rare-op")](t) },
+		if regime == "boundary" {
+			// time is the subject here: sleeping must be as common as reading and writing
+			t.Repeat(map[string]func(*rapid.T){
+				"": acts[""], "put": acts["put"], "put2": acts["put"], "get": acts["get"], "get2": acts["get"], "get3": acts["get"],
+				"sleep": acts["sleep"], "sleep2": acts["sleep"], "sleep3": acts["sleep"],
+				"rare": func(t *rapid.T) { acts[rapid.SampledFrom([]string{"sweep", "sweep", "delete", "clear"}).Draw(t, "rare-op")](t) },
+			})
+		} else {
+			t.Repeat(c12Weighted(acts, rare))
 		}
-		t.Repeat(weighted)
 		nontrivial := m.recency > 0 || m.expired > 0
 		labels := []string{"regime:" + regime}
 		if m.recency > 0 {
@@ -318,6 +326,16 @@ func lruProperty(regimes []string) func(t *rapid.T) {
 			steps = append(steps[:60], lruStep{Op: fmt.Sprintf("... %d more", len(steps)-60)})
 		}
 		rec.Case(nontrivial, map[string]any{"cap": capIn, "regime": regime, "steps": steps}, labels...)
+	}
+}
+
+func c12Weighted(acts map[string]func(*rapid.T), rare []string) map[string]func(*rapid.T) {
+	return map[string]func(*rapid.T){
+		"":    acts[""],
+		"put": acts["put"], "put2": acts["put"], "put3": acts["put"],
+		"get": acts["get"], "get2": acts["get"], "get3": acts["get"],
+		"delete": acts["delete"],
+		"rare":   func(t *rapid.T) { acts[rapid.SampledFrom(rare).Draw(t, "rare-op")](t) },
 	}
 }
 
